@@ -136,6 +136,8 @@ func vfLifecycle(c11 bool) {
 	discs := zzvf.Param("disconnects")
 	var lagged *vfClient
 	justLagged := false
+	var popped []interface{}
+	justPopped := false
 	zzvf.Reach("c09-start")
 	for step := 0; step < 30; step++ {
 		pend := w.mq.pending()
@@ -211,8 +213,18 @@ func vfLifecycle(c11 bool) {
 			}
 		case a == flushAct:
 			flushes--
-			zzvf.Note("eviction timer fires")
-			rescache.VFFlushEvictions(w.s.cache)
+			// splitflush: the timer goroutine has taken the entry off the
+			// queue, but its callback runs only after the next external
+			// action (it waits for the cache lock meanwhile)
+			if zzvf.ParamOr("splitflush", 0) == 1 && zzvf.Choose("timer-callback-delayed", 2) == 1 {
+				zzvf.Note("eviction timer fires, callback delayed")
+				zzvf.Tag("eviction-callback-delayed")
+				popped = rescache.VFPopEvictions(w.s.cache)
+				justPopped = true
+			} else {
+				zzvf.Note("eviction timer fires")
+				rescache.VFFlushEvictions(w.s.cache)
+			}
 		case a == discAct:
 			discs--
 			r := runs[len(runs)-1]
@@ -253,12 +265,28 @@ func vfLifecycle(c11 bool) {
 			w.settle()
 		}
 		justLagged = false
+		if popped != nil && !justPopped {
+			zzvf.Note("delayed eviction callback runs")
+			for _, v := range popped {
+				rescache.VFFireEviction(w.s.cache, v)
+			}
+			popped = nil
+			w.settle()
+		}
+		justPopped = false
 		for _, r := range runs {
 			r.observe()
 		}
-		if lagged == nil {
+		if lagged == nil && popped == nil {
 			vfCheckCacheInvariant(w)
 		}
+	}
+	if popped != nil {
+		for _, v := range popped {
+			rescache.VFFireEviction(w.s.cache, v)
+		}
+		popped = nil
+		w.settle()
 	}
 	if lagged != nil {
 		w.lag(lagged, false)
